@@ -111,6 +111,26 @@ class Mon:
             hook(fs)
 
 
+class _WrappedPool:
+    """Thin wrapper around a process pool (as a logging or MPI adapter would
+    be): map / close / terminate / join only."""
+
+    def __init__(self, pool):
+        self._inner = pool
+
+    def map(self, func, iterable, *a, **k):
+        return self._inner.map(func, iterable, *a, **k)
+
+    def close(self):
+        return self._inner.close()
+
+    def terminate(self):
+        return self._inner.terminate()
+
+    def join(self):
+        return self._inner.join()
+
+
 # --------------------------------------------------------------------------
 def decode_kwargs(kwargs, mon):
     """JSON -> FlowSampler kwargs (special markers)."""
@@ -126,6 +146,10 @@ def decode_kwargs(kwargs, mon):
                 initargs=(mon.model,),
             )
             mon.data["user_pool"] = v["__pool__"]
+            if v.get("wrapped"):
+                # a user pool whose size nessai cannot read off the object
+                # (no `_processes`): the caller states it with `n_pool`
+                pool = _WrappedPool(pool)
             out[k] = pool
         elif isinstance(v, dict) and "__inf__" in v:
             out[k] = float("inf")
